@@ -30,7 +30,7 @@ HANDLES = ['filename', 'connection', 'cursor', 'mkcurs']
 EXCS = sorted(probes.FAULT_TYPES)
 REQUIRED = (['handle:' + h for h in HANDLES] + ['fn:todb', 'fn:appenddb', 'commit:True', 'commit:False', 'fail:none', 'fail:header',
             'fail:first-row', 'fail:last-row', 'fail:exhaustion', 'rolled-back-load-left-previous-contents', 'commit=False-invisible-until-caller-commits',
-            'long-load', 'source-read-through-the-same-connection', 'pending-load-read-back-through-the-same-connection', 'roundtrip-typed-cells', 'quoted-identifiers', 'sql-statements-traced', 'schema-qualified', 'fromdb-handle-kinds'] + ['exc:' + e for e in EXCS])
+            'long-load', 'source-read-through-the-same-connection', 'pending-load-read-back-through-the-same-connection', 'roundtrip-typed-cells', 'quoted-identifiers', 'sql-statements-traced', 'schema-qualified', 'fromdb-handle-kinds', 'fromdb-two-readers'] + ['exc:' + e for e in EXCS])
 EXHAUSTIVE = {'quick': False, 'thorough': False}   # the enumerated families are complete within their bounds, but a seeded random family is judged too
 
 CELLS = [None, 0, 1, -5, 2 ** 40, 1.5, -0.25, '', 'a', "it's", 'say "hi"', 'é€漢', 'x;y', b'', b'\x00\xff', 'NULL', ' lead']
@@ -257,6 +257,25 @@ def judge(case, ctx):
                                         'observed': repr(got2) if isinstance(got2, util.Raised) else got2})
                             break
                 ctx.seen('fromdb-handle-kinds')
+            # two readers of one fromdb view (file name, connection, cursor factory), one lagging behind the other: each gets the table
+            for hname, h in (('filename', path),) + ((('connection', conn), ('cursor-factory', lambda: conn.cursor())) if conn is not None else ()):
+                v = petl.fromdb(h, q)
+                a_, b_ = iter(v), iter(v)
+                ga, gb = [], []
+                try:
+                    for _ in range(min(2, len(exp))):
+                        ga.append(tuple(next(a_)))
+                    gb.extend(tuple(r) for r in b_)
+                    ga.extend(tuple(r) for r in a_)
+                except Exception as e:  # noqa: the exception is the observation
+                    out.append({'kind': 'exception', 'fn': 'fromdb(%s), two readers' % hname, 'detail': '%s: %s' % (type(e).__name__, e)})
+                    del e
+                    break
+                if util.crows(ga) != util.crows(exp) or util.crows(gb) != util.crows(exp):
+                    out.append({'kind': 'fromdb(%s)-two-readers-differ' % hname, 'expected': exp, 'lagging-reader': ga, 'other-reader': gb})
+                    break
+                del a_, b_
+            ctx.seen('fromdb-two-readers')
         if conn is not None:
             try:
                 conn.rollback()
